@@ -149,7 +149,13 @@ def main(argv=None):
 
     replay_paths = []
     seen_mech = set()
-    os.makedirs(os.path.join(VERIF_DIR, "replays", pid), exist_ok=True)
+    rdir = os.path.join(VERIF_DIR, "replays", pid)
+    os.makedirs(rdir, exist_ok=True)
+    for fn in os.listdir(rdir):  # replays belong to one run
+        try:
+            os.unlink(os.path.join(rdir, fn))
+        except OSError:
+            pass
     for v in unlisted:
         blob = json.dumps({"property": pid, "tier": tier, "seed": seed, **{k: v[k] for k in v if k != "t"}}, sort_keys=True, default=str)
         h = hashlib.sha1(blob.encode()).hexdigest()[:16]
